@@ -26,10 +26,11 @@ def Store.get? (s : Store) (k : Bytes) : Option Nat :=
 
 def Store.has (s : Store) (k : Bytes) : Bool := (s.get? k).isSome
 
-/-- a sub-store receiving a blob: kept ascending, an existing entry is kept -/
+/-- a sub-store receiving a copy of a blob: kept ascending; the copy written last replaces an earlier
+one (a harness sub-store holds, per ref, either the good copy or a truncated one – never both) -/
 def Store.insert (e : SR) : Store → Store
   | [] => [e]
-  | a :: t => if ltB e.1 a.1 then e :: a :: t else if e.1 == a.1 then a :: t else a :: Store.insert e t
+  | a :: t => if ltB e.1 a.1 then e :: a :: t else if e.1 == a.1 then e :: t else a :: Store.insert e t
 
 def Store.remove (ks : List Bytes) (s : Store) : Store := s.filter (fun e => !ks.contains e.1)
 
@@ -254,6 +255,10 @@ def statBlobs (reads : List Sub) (blobs : List Bytes) (reports : List SR) : List
 /-- the delivery order "replica by replica" (one of the possible ones; used by the driver) -/
 def seqReports (reads : List Sub) (blobs : List Bytes) : List SR :=
   (reads.filter (!·.down)).flatMap (·.statReports blobs)
+
+/-- the delivery order "read replica by read replica, in the order `order` of positions" -/
+def orderedReports (reads : List Sub) (blobs : List Bytes) (order : List Nat) : List SR :=
+  seqReports (order.filterMap (fun p => reads[p]?)) blobs
 
 /-! ## RemoveBlobs (replica.go:240-267) -/
 
